@@ -28,13 +28,12 @@ func (c *ShipConnection) handleShipMessage(timeout bool, message []byte) {
 				// wait a bit to let it send
 				<-time.After(500 * time.Millisecond)
 
-				//
-				c.dataWriter.CloseDataConnection(4001, "close")
-				c.infoProvider.HandleConnectionClosed(c, c.getState() == model.SmeStateComplete)
+				// close via the once guarded close path, so the end of this connection
+				// is reported exactly once and a pending handshake timer is stopped
+				c.CloseConnection(false, 4001, "close")
 			case model.ConnectionClosePhaseTypeConfirm:
 				// we got a confirmation so close this connection
-				c.dataWriter.CloseDataConnection(4001, "close")
-				c.infoProvider.HandleConnectionClosed(c, c.getState() == model.SmeStateComplete)
+				c.CloseConnection(false, 4001, "close")
 			}
 
 			return
